@@ -210,6 +210,39 @@ pub fn converge() {
     sym::reach(1);
 }
 
+/// C18 / C01: two writers that never talked store an identical payload (one pack covers the other). A relay melds from
+/// both (either order, either listing order, optionally reopened) and a final replica is fed through the relay only:
+/// it must see every object. params: [reversed listing on the relay]
+pub fn relay_duplicates() {
+    let a = Rep::new();
+    a.m.create_object("xa", obj(serde_json::json!({"v": 1}))).unwrap();
+    a.m.commit(None).unwrap().expect("block a");
+    let b = Rep::new();
+    b.m.create_object("xb", obj(serde_json::json!({"v": 1}))).unwrap();
+    b.m.create_object("yb", obj(serde_json::json!({"w": 2}))).unwrap();
+    b.m.commit(None).unwrap().expect("block b");
+    let mut c = rep(sym::param(0) != 0);
+    if sym::any_bool() {
+        c.pull(&a);
+        c.pull(&b);
+    } else {
+        c.pull(&b);
+        c.pull(&a);
+    }
+    if sym::any_bool() {
+        c = Rep { m: Melda::new(c.ad.clone()).expect("reopen relay"), ad: c.ad.clone() };
+    }
+    let mut d = Rep::new();
+    d.pull(&c);
+    let objs: Vec<String> = d.m.get_all_objects().into_iter().collect();
+    for id in ["xa", "xb", "yb"] {
+        assert!(objs.contains(&id.to_string()), "a replica fed through a relay misses an object");
+        assert!(d.m.get_value(id, None).is_ok(), "a replica fed through a relay cannot read an object");
+    }
+    assert!(visible(&d.m) == visible(&c.m), "relay and final replica differ");
+    sym::reach(1);
+}
+
 /// C18 / C01: three replicas concurrently insert different elements at the same position of one array (three leaves on
 /// its descriptor). Every order of learning the three commits, a reopened replica and a run with a deviating hash
 /// iteration show the same document and winners.
